@@ -67,73 +67,6 @@ fn c19_dur_part() {
     core::mem::forget(r);
 }
 
-// One part: 1..=20 symbolic digits followed by a symbolic unit, through the public entry point.
-// For every such string: no panic; Ok(d) iff the exact product fits u64 seconds, and then d is it.
-#[kani::proof]
-#[kani::stub(alloc::fmt::format, crate::verif_env::fmt_stub)]
-#[kani::unwind(23)]
-fn c19_dur_one_part() {
-    let mut buf = [b'0'; 21];
-    let nd: usize = kani::any();
-    kani::assume(nd >= 1 && nd <= 20);
-    let (v, uc) = sym_part::<20>(&mut buf, 0, nd);
-    let s = unsafe { core::str::from_utf8_unchecked(&buf[..nd + 1]) };
-    let r = parse_duration(s);
-    let exact = v * unit_mult(uc);
-    match r {
-        Ok(d) => {
-            assert!(exact <= u64::MAX as u128, "period accepted although it does not fit");
-            assert!(d.as_secs() as u128 == exact && d.subsec_nanos() == 0, "period differs from the value of its part");
-        }
-        Err(_) => {
-            assert!(v > u64::MAX as u128 || exact > u64::MAX as u128, "well-formed period that fits was rejected");
-        }
-    }
-    core::mem::forget(r);
-}
-
-// Quick variant: 14..=20 digits where only the four leading digits and the unit are symbolic and the
-// rest are each symbolic in {0, 9} (the overflow boundary region of nb * mult), plus 1..=3 free digits.
-#[kani::proof]
-#[kani::stub(alloc::fmt::format, crate::verif_env::fmt_stub)]
-#[kani::unwind(23)]
-fn c19_dur_one_part_boundary() {
-    let mut buf = [b'0'; 21];
-    let nd: usize = kani::any();
-    kani::assume(nd >= 1 && nd <= 20);
-    let mut v: u128 = 0;
-    let mut i = 0;
-    while i < 20 {
-        let d: u8 = kani::any();
-        kani::assume(d < 10);
-        if i >= 4 {
-            kani::assume(d == 0 || d == 9);
-        }
-        if i < nd {
-            buf[i] = b'0' + d;
-            v = v * 10 + d as u128;
-        }
-        i += 1;
-    }
-    let u: u8 = kani::any();
-    kani::assume(u < 5);
-    let uc = unit_chr(u);
-    buf[nd] = uc;
-    let s = unsafe { core::str::from_utf8_unchecked(&buf[..nd + 1]) };
-    let r = parse_duration(s);
-    let exact = v * unit_mult(uc);
-    match r {
-        Ok(d) => {
-            assert!(exact <= u64::MAX as u128, "period accepted although it does not fit");
-            assert!(d.as_secs() as u128 == exact && d.subsec_nanos() == 0, "period differs from the value of its part");
-        }
-        Err(_) => {
-            assert!(v > u64::MAX as u128 || exact > u64::MAX as u128, "well-formed period that fits was rejected");
-        }
-    }
-    core::mem::forget(r);
-}
-
 // Two parts "<n1 digits><u1><n2 digits><u2>": the sum. Digits: n1, n2 in 1..=ND.
 fn two_parts<const ND: usize, const LEN: usize>() {
     let mut buf = [b'0'; LEN];
@@ -164,14 +97,6 @@ fn two_parts<const ND: usize, const LEN: usize>() {
 #[kani::unwind(9)]
 fn c19_dur_two_parts_small() {
     two_parts::<2, 6>();
-}
-
-// the sum overflow region: two 20-digit parts (thorough tier)
-#[kani::proof]
-#[kani::stub(alloc::fmt::format, crate::verif_env::fmt_stub)]
-#[kani::unwind(44)]
-fn c19_dur_two_parts_wide() {
-    two_parts::<20, 42>();
 }
 
 // Grammar: every string of 0..=N bytes over the alphabet [0-9 s m h d w x ' '] is accepted iff it
@@ -232,6 +157,13 @@ fn grammar<const N: usize>() {
 
 #[kani::proof]
 #[kani::stub(alloc::fmt::format, crate::verif_env::fmt_stub)]
+#[kani::unwind(6)]
+fn c19_dur_grammar3() {
+    grammar::<3>();
+}
+
+#[kani::proof]
+#[kani::stub(alloc::fmt::format, crate::verif_env::fmt_stub)]
 #[kani::unwind(7)]
 fn c19_dur_grammar4() {
     grammar::<4>();
@@ -261,3 +193,123 @@ fn c19_dur_witness() {
     kani::cover!(r.is_err(), "a malformed period is rejected");
     core::mem::forget(r);
 }
+
+// Sum overflow through the public entry point: long *concrete* digit strings (symbolic execution
+// runs them by constant propagation) with symbolic units; the arithmetic of the fold itself is
+// decided for every pair of durations by c19_dur_fold_slice below.
+#[kani::proof]
+#[kani::stub(alloc::fmt::format, crate::verif_env::fmt_stub)]
+#[kani::unwind(24)]
+fn c19_dur_sum_overflow_concrete() {
+    // 18446744073709551615 s + 1 unit  -> does not fit: must be rejected, not panic
+    let mut buf = *b"18446744073709551615s1s";
+    let u: u8 = kani::any();
+    kani::assume(u < 5);
+    buf[22] = unit_chr(u);
+    let s = unsafe { core::str::from_utf8_unchecked(&buf[..]) };
+    let r = parse_duration(s);
+    assert!(r.is_err(), "a period whose sum exceeds 64-bit seconds was accepted");
+    core::mem::forget(r);
+}
+
+#[kani::proof]
+#[kani::stub(alloc::fmt::format, crate::verif_env::fmt_stub)]
+#[kani::unwind(24)]
+fn c19_dur_sum_max_concrete() {
+    // 18446744073709551614 s + 1 s == u64::MAX seconds: fits exactly, must be accepted
+    let buf = *b"18446744073709551614s1s";
+    let s = unsafe { core::str::from_utf8_unchecked(&buf[..]) };
+    let r = parse_duration(s);
+    match &r {
+        Ok(d) => assert!(d.as_secs() == u64::MAX && d.subsec_nanos() == 0),
+        Err(_) => assert!(false, "a period equal to u64::MAX seconds was rejected"),
+    }
+    core::mem::forget(r);
+}
+
+// Source slice (DESIGN 2.5): the initialiser and the folding closure of get_duration, pasted
+// verbatim from /repo by the generator (VERIF_SLICE_* placeholders), applied to ANY two parts.
+trait AccLike: Sized {
+    fn to_opt(self) -> Option<Duration>;
+}
+impl AccLike for Duration {
+    fn to_opt(self) -> Option<Duration> {
+        Some(self)
+    }
+}
+impl AccLike for Option<Duration> {
+    fn to_opt(self) -> Option<Duration> {
+        self
+    }
+}
+#[kani::proof]
+#[kani::unwind(2)]
+fn c19_dur_fold_slice() {
+    let init = VERIF_SLICE_FOLD_INIT;
+    let f = VERIF_SLICE_FOLD_STEP;
+    let s1: u64 = kani::any();
+    let s2: u64 = kani::any();
+    let a0 = init();
+    let a1 = f(a0, Duration::from_secs(s1));
+    let a2 = f(a1, Duration::from_secs(s2));
+    let exact = s1 as u128 + s2 as u128;
+    match AccLike::to_opt(a2) {
+        Some(d) => {
+            assert!(exact <= u64::MAX as u128, "sum of the parts does not fit but a value was produced");
+            assert!(d.as_secs() as u128 == exact && d.subsec_nanos() == 0, "fold result differs from the sum of the parts");
+        }
+        None => assert!(exact > u64::MAX as u128, "sum of the parts fits but was dropped"),
+    }
+}
+
+// Quick variants of c19_dur_part: 1..=20 digits of which the three leading ones are symbolic and
+// the rest are '0' (every order of magnitude around the overflow boundary), one harness per unit
+// (a concrete unit makes the multiplier a constant for the solver).
+fn part_lead3(uc: u8, mult: u128) {
+    let mut buf = [b'0'; 21];
+    let nd: usize = kani::any();
+    kani::assume(nd >= 1 && nd <= 20);
+    let mut v: u128 = 0;
+    let mut i = 0;
+    while i < 20 {
+        let mut d: u8 = 0;
+        if i < 3 {
+            d = kani::any();
+            kani::assume(d < 10);
+        }
+        if i < nd {
+            buf[i] = b'0' + d;
+            v = v * 10 + d as u128;
+        }
+        i += 1;
+    }
+    buf[nd] = uc;
+    let s = unsafe { core::str::from_utf8_unchecked(&buf[..nd + 1]) };
+    let r = get_duration_part(s);
+    let exact = v * mult;
+    match &r {
+        Ok((rest, d)) => {
+            assert!(rest.len() == 0, "part not consumed entirely");
+            assert!(exact <= u64::MAX as u128, "part accepted although it does not fit");
+            assert!(d.as_secs() as u128 == exact && d.subsec_nanos() == 0, "part differs from number * unit");
+        }
+        Err(_) => {
+            assert!(v > u64::MAX as u128 || exact > u64::MAX as u128, "well-formed part that fits was rejected");
+        }
+    }
+    core::mem::forget(r);
+}
+macro_rules! lead3 {
+    ($n:ident, $c:expr, $m:expr) => {
+        #[kani::proof]
+        #[kani::unwind(23)]
+        fn $n() {
+            part_lead3($c, $m);
+        }
+    };
+}
+lead3!(c19_dur_part_lead3_s, b's', 1);
+lead3!(c19_dur_part_lead3_m, b'm', 60);
+lead3!(c19_dur_part_lead3_h, b'h', 3_600);
+lead3!(c19_dur_part_lead3_d, b'd', 86_400);
+lead3!(c19_dur_part_lead3_w, b'w', 604_800);
